@@ -119,6 +119,26 @@ theorem choose_mem {s : St} {ra : Nat} {a : Addr} (h : choose s ra = some a) :
   have := mem_cands.1 hf.mem
   exact ⟨b, this.1, hb, this.2.1, this.2.2.1, this.2.2.2, hf.max⟩
 
+/-- maximal bond, ties resolved to the smallest address (the sequencer list is sorted by address) -/
+theorem choose_max_tiebreak {s : St} (hs : AddrSorted s.seqs) {ra : Nat} {a : Addr} (h : choose s ra = some a) :
+    ∃ b, b.addr = a ∧ b ∈ cands s ra ∧
+      ∀ x ∈ cands s ra, x.tokens ≤ b.tokens ∧ (x.tokens = b.tokens → b.addr ≤ x.addr) := by
+  obtain ⟨b, hb, hf⟩ := choose_spec h
+  refine ⟨b, hb, hf.mem, ?_⟩
+  have hsort : AddrSorted (cands s ra) := List.Pairwise.filter _ hs
+  obtain ⟨pre, post, e, h1, h2⟩ := hf
+  rw [e] at hsort ⊢
+  unfold AddrSorted at hsort
+  rw [List.pairwise_append] at hsort
+  obtain ⟨_, hbp, _⟩ := hsort
+  have hbp' := (List.pairwise_cons.1 hbp).1
+  intro x hx
+  simp only [List.mem_append, List.mem_cons] at hx
+  rcases hx with hx | rfl | hx
+  · exact ⟨Nat.le_of_lt (h1 x hx), fun he => absurd he (Nat.ne_of_lt (h1 x hx))⟩
+  · exact ⟨Nat.le_refl _, fun _ => Nat.le_refl _⟩
+  · exact ⟨h2 x hx, fun _ => Nat.le_of_lt (hbp' x hx)⟩
+
 theorem choose_congr {s s' : St} (e : s'.seqs = s.seqs) (ra : Nat) : choose s' ra = choose s ra := by
   unfold choose; rw [e]
 
